@@ -2195,7 +2195,9 @@ class InstRWInfoTable extends core.Task {
               break;
           }
 
-          if (op.zext)
+          // Zero extension only applies to registers. A memory-only operand (e.g. the store form `movlps W:m64, xmm`) must not
+          // leak ZExt into a register operand of another form that shares this row (`movlps w:xmm[63:0], m64` keeps bits 127:64).
+          if (op.zext && op.isReg())
             d.flags.ZExt = true;
 
           if (op.regIndexRel)
